@@ -85,6 +85,7 @@ pub fn main(args: &[String]) -> i32 {
 		if crate::util::skip_case(case_no) {
 			continue
 		}
+		crate::util::watch_begin(&out, &[109, case_no]);
 		let _ = std::fs::remove_dir_all(&dir);
 		let mut o = Options::with_columns(&dir, 1);
 		o.stats = false;
@@ -95,7 +96,12 @@ pub fn main(args: &[String]) -> i32 {
 		// deep mode (decided below) needs 129 keys in one 17-bit page before the first reindex batch
 		let deep = rng.chance(1, 3);
 		let nkeys = if deep { rng.range(130, 150) as usize } else { rng.range(66, 100) as usize };
-		let pages = [[rng.below(256) as u8, rng.below(256) as u8], [rng.below(256) as u8, rng.below(256) as u8]];
+		let first = match rng.below(8) {
+			0 | 1 => [0u8, 0u8],
+			2 => [0xffu8, 0xffu8],
+			_ => [rng.below(256) as u8, rng.below(256) as u8],
+		};
+		let pages = [first, [rng.below(256) as u8, rng.below(256) as u8]];
 		let two_pages = !deep && rng.chance(1, 3);
 		let bit17 = (rng.below(2) as u8) << 7;
 		let mut keys: Vec<Vec<u8>> = Vec::new();
@@ -236,6 +242,7 @@ pub fn main(args: &[String]) -> i32 {
 		if res.is_err() && verdict.is_ok() {
 			verdict = Err("panic in an index history".into());
 		}
+		crate::util::watch_end();
 		case[1] = done;
 		out.case(&case);
 		out.obs(&obs);
